@@ -1671,6 +1671,54 @@ end Goml.Anf.Gen
 """)
 
 EXTRACTORS += [c09_anf_guards]
+# ---------------------------------------------------------------- C01 pipeline composition: order of the passes
+def c01pipe_calls(text, what):
+    """the `let (file, env) = pass(env_arg, [&gensym,] file_arg);` statements of the back half, in source order"""
+    rx = re.compile(r"let \((\w+), (\w+)\) =\s*((?:crate::)?(?:mono::mono|lift::lambda_lift|anf::anf_file|go::compile::go_file))\(\s*(\w+)\.clone\(\),\s*(?:(&gensym),\s*)?(\w+)\.clone\(\)\s*\);")
+    calls = [(m.group(3).replace("crate::", ""), m.group(4), m.group(6), m.group(5) is not None, m.group(1), m.group(2), m.start()) for m in rx.finditer(text)]
+    if [c[0] for c in calls] != ["mono::mono", "lift::lambda_lift", "anf::anf_file", "go::compile::go_file"]:
+        raise Exception(f"{what}: the back half is no longer mono -> lambda_lift -> anf_file -> go_file (found {[c[0] for c in calls]})")
+    return calls
+
+def c01pipe_gen_pipeline_order():
+    """C01 pipeline composition: which passes `pipeline::compile` (and the separate-compilation linker) run after
+    match compilation, in which order, what each is given, and that `go_file` ends with dead-code elimination"""
+    pl = src("crates/compiler/src/pipeline/pipeline.rs")
+    sep = src("crates/compiler/src/pipeline/separate.rs")
+    body = block_after(pl, r"pub fn compile\(path: &Path, src: &str\) -> Result<Compilation, CompilationError> \{", "pipeline::compile")
+    calls = c01pipe_calls(body, "pipeline::compile")
+    calls_sep = c01pipe_calls(sep, "separate.rs link")
+    if [(c[0], c[3]) for c in calls] != [(c[0], c[3]) for c in calls_sep]:
+        raise Exception("pipeline.rs and separate.rs sequence the passes differently")
+    # one Gensym, created before match compilation, shared by every later pass
+    g = [m.start() for m in re.finditer(r"let gensym = Gensym::new\(\);", body)]
+    bp = body.find("build_package(&gensym")
+    if len(g) != 1 or bp < 0 or not (g[0] < bp < calls[0][6]):
+        raise Exception("pipeline::compile: expected exactly one Gensym, created before build_package, before mono")
+    gf = block_after(src("crates/compiler/src/go/compile.rs"), r"pub fn go_file\(", "go::compile::go_file")
+    if not re.search(r"\(crate::go::dce::eliminate_dead_vars\(file\), goenv\)\s*$", gf.strip()):
+        raise Exception("go_file no longer returns eliminate_dead_vars(file)")
+    row = lambda c: f'({lstr(c[0])}, {lstr(c[1])}, {lstr(c[2])}, {"true" if c[3] else "false"}, {lstr(c[4])}, {lstr(c[5])})'
+    rows = ",\n  ".join(row(c) for c in calls)
+    write_if_changed("PipelineOrder.lean", f"""/- GENERATED by tools/extract.py (c01pipe_gen_pipeline_order) from pipeline/pipeline.rs, pipeline/separate.rs, go/compile.rs — do not edit; regenerated on every ./check run -/
+namespace Goml.Gen
+
+/-- the passes `pipeline::compile` runs after match compilation, in source order:
+    (pass, environment argument, file argument, is it handed the pipeline-wide `Gensym`,
+     variable bound to the output file, variable bound to the output environment) -/
+def pipelineOrder : List (String × String × String × Bool × String × String) := [
+  {rows}]
+
+/-- the same four calls in the same order in `separate.rs` (linking separately compiled packages) -/
+def pipelineOrderSeparate : List String := [{", ".join(lstr(c[0]) for c in calls_sep)}]
+
+/-- `go_file` returns `dce::eliminate_dead_vars(file)` -/
+def goFileEndsWithDce : Bool := true
+
+end Goml.Gen
+""")
+
+EXTRACTORS += [c01pipe_gen_pipeline_order]
 
 if __name__ == "__main__":
     main()
